@@ -135,6 +135,15 @@ def optOfJson : Json → P TreeOpt
   | .null => pure .below
   | _ => throw "bad tree option"
 
+def treeArgField (j : Json) : P TreeArg :=
+  match j.getObjVal? "tree" with
+  | .ok (.bool true) => pure .yes
+  | .ok (.bool false) => pure .no
+  | .ok .null => pure .below
+  | .ok (.str "noroot") => pure .noroot
+  | .ok _ => pure .invalid
+  | .error _ => pure .yes
+
 def treeOptField (j : Json) : P TreeOpt :=
   match j.getObjVal? "tree" with
   | .ok v => optOfJson v
@@ -193,10 +202,10 @@ def step (st : St) (j : Json) : P (St × Json) := do
       | some i => inputOfJson i
       | none => do pure (Input.node (← srcOfJson (← j.getObjVal? "src")))
     let mode ← strField j "mode"
-    let opt ← treeOptField j
+    let opt ← treeArgField j
     let ep := (optField j "emdpath").bind (fun v => v.getStr?.toOption)
     let existed := (fsLookup st.fs path).isSome
-    match saveInput st.sess s!"u{st.created}" st.fs path inp mode opt ep with
+    match saveArgs st.sess s!"u{st.created}" st.fs path inp mode opt ep with
     | .ok fs' =>
       -- a header (and so a UUID) is written exactly when a new file is created
       let createdNow := !existed || (match classifyMode (effectiveMode mode ep) with
